@@ -225,7 +225,70 @@ def t20_4(chk, repo, nrows):
            fingerprint="vdc")
 
 
+COMPILED = {"quasirandom_kgf": "chmpy.sampling._lds.quasirandom_kgf", "quasirandom_kgf_batch": "chmpy.sampling._lds.quasirandom_kgf_batch",
+            "quasirandom_sobol": "chmpy.sampling._sobol.quasirandom_sobol", "quasirandom_sobol_batch": "chmpy.sampling._sobol.quasirandom_sobol_batch"}
+
+
+def _strip_int(t: P) -> P:
+    a = t.as_atom()
+    if a and a[0] == "call" and call_name(a) == "int" and len(a[2]) == 1:
+        return a[2][0]
+    return t
+
+
+def _resolves_to(fe, callee: P, want_full: str) -> bool:
+    """callee (a name term) is bound, in the front-end module, to the compiled generator want_full."""
+    a = callee.as_atom()
+    if not a or a[0] != "name":
+        return False
+    return a[1] == want_full or fe.ctx.alias.get(a[1].split(".")[-1]) == want_full
+
+
+def wrapper_contract(chk, fe, name):
+    """A public generator name that the front end binds to a Python function instead of the compiled generator:
+    the function must hand its own arguments to that generator (directly, or window by window into a result array)."""
+    from .generic import inline_single_return_hook
+    want = COMPILED[name]
+    batch = name.endswith("_batch")
+    ev = fe.ev(name, call_hook=inline_single_return_hook(fe, skip=(name,)))
+    chk.saw(FE, name)
+    params = [P.name(x) for x in ev.param_names]
+    chk.need(len(params) == (3 if batch else 2), f"{name}: wrapper has {len(params)} parameters")
+    for r in ev.returns:
+        v = r.value
+        a = v.as_atom()
+        if a and a[0] == "call" and _resolves_to(fe, a[1], want):
+            args = [_strip_int(x) for x in a[2]]
+            chk.ob("R20.5", FE, name, "the Python wrapper hands its own arguments, unchanged and in order, to the compiled generator",
+                   [x.key() for x in args] == [x.key() for x in params] and (len(a) < 4 or not a[3]), node=r.node, fingerprint=f"forward:{name}",
+                   expected=f"{want.split('.')[-1]}({', '.join(map(str, params))})", found=str(v)[:160])
+            continue
+        if a and a[0] == "obj" and batch:
+            L, U, D = params
+            stores = [e for e in ev.events if e.kind == "store" and e.target.as_atom() and e.target.as_atom()[0] == "sub"
+                      and e.target.as_atom()[1].key() == v.key()]
+            chk.need(stores, f"{name}: result array is never filled")
+            for e in stores:
+                sl = e.target.as_atom()[2][0].as_atom()
+                va = e.value.as_atom()
+                okshape = bool(sl and sl[0] == "slice" and va and va[0] == "call" and _resolves_to(fe, va[1], want) and len(va[2]) == 3)
+                if not okshape:
+                    raise AnalysisError(f"{FE}:{name}: unrecognised way of filling the result array: {e.target} = {str(e.value)[:80]}")
+                lo_row, hi_row = sl[1], sl[2]
+                s0, s1, d = [_strip_int(x) for x in va[2]]
+                chk.ob("R20.5", FE, name, "rows [a, b) of the result hold the seeds L + a .. L + b - 1 (window contract of the inclusive batch generator)",
+                       s0 == L + lo_row and s1 == L + hi_row - 1 and d.key() == D.key(), node=e.node, fingerprint=f"window:{name}",
+                       expected=f"({L + lo_row}, {L + hi_row - 1}, {D})", found=f"rows [{lo_row}, {hi_row}) <- ({s0}, {s1}, {d})")
+            init = obj_init(v).as_atom()
+            shape = seq_items(init[2][0]) if init and init[2] else None
+            chk.ob("R20.5", FE, name, "the result array has U - L + 1 rows and D columns", bool(shape) and len(shape) == 2 and shape[0] == U - L + 1
+                   and shape[1].key() == D.key(), fingerprint=f"shape:{name}", found=str(obj_init(v))[:120])
+            continue
+        raise AnalysisError(f"{FE}:{name}: unrecognised wrapper around the compiled generator: returns {str(v)[:120]}")
+
+
 def r20_5(chk, fe):
+    from .generic import inline_single_return_hook
     single = fe.toplevel_assign("_SINGLE")
     batch = fe.toplevel_assign("_BATCH")
     chk.need(isinstance(single, ast.Dict) and isinstance(batch, ast.Dict), "_SINGLE / _BATCH are no longer dict literals")
@@ -235,21 +298,44 @@ def r20_5(chk, fe):
     for k in sorted(sd):
         chk.ob("R20.5", FE, "_BATCH", f"method '{k}': the batch generator is the batch version of the single generator",
                bd.get(k) == sd[k] + "_batch" and sd[k] == f"quasirandom_{k}", fingerprint=f"pair:{k}", found=f"{sd[k]} / {bd.get(k)}")
-    ev = fe.ev("quasirandom")
+    # what do the public names denote in this module: the compiled generators, or Python wrappers around them?
+    for name, full in sorted(COMPILED.items()):
+        if name in fe.funcs:
+            wrapper_contract(chk, fe, name)
+        else:
+            chk.ob("R20.5", FE, name, "the public name is the compiled generator of that name", fe.ctx.alias.get(name) == full,
+                   fingerprint=f"binding:{name}", expected=full, found=str(fe.ctx.alias.get(name)))
+    ev = fe.ev("quasirandom", call_hook=inline_single_return_hook(fe, skip=("quasirandom",)))
     chk.saw(FE, "quasirandom")
     d1, d2, method, seed = [P.name(x) for x in ev.param_names]
-    rs = {}
+    from .generic import specialise
+    ck = f"(is None {d2})"
+    cases = {True: [], False: []}
     for e in ev.returns:
-        none = any(pol and c.key() == f"(is None {d2})" for c, pol in e.guards)
-        rs[none] = e.value
-    s_ok = rs.get(True) is not None and rs[True].key() == f"_SINGLE[{method}]({seed}, {d1})"
-    chk.ob("R20.5", FE, "quasirandom", "one vector: the single generator gets (seed, dimension)", s_ok, found=str(rs.get(True)))
-    b = rs.get(False)
-    okb = False
-    if b is not None and b.as_atom() and b.as_atom()[0] == "call":
-        a = b.as_atom()[2]
-        okb = len(a) == 3 and a[0].key() == seed.key() and (a[1] - a[0] + 1) == d1 and a[2].key() == d2.key() and b.as_atom()[1].key() == f"_BATCH[{method}]"
-    chk.ob("R20.5", FE, "quasirandom", "a sequence: the batch gets the inclusive window [seed, seed + d1 - 1] (d1 points) and the dimension", okb, found=str(b))
+        g = {c.key(): pol for c, pol in e.guards}
+        for truth in (True, False):
+            if ck in g and g[ck] != truth:
+                continue
+            cases[truth].append((e, specialise(e.value, ck, truth)))
+    chk.need(cases[True] and cases[False], "quasirandom: no return path for one of the two call forms (d2 given / not given)")
+    single_ok = {f"_SINGLE[{method}]({seed}, {d1})", f"_BATCH[{method}]({seed}, {seed}, {d1})[0]"}
+    for e, v in cases[True]:
+        chk.ob("R20.5", FE, "quasirandom", "one vector: the single generator gets (seed, dimension) (or row 0 of the one-seed batch, equal by R20.1)",
+               v.key() in single_ok, node=e.node, fingerprint="single-call", found=str(v)[:160])
+    for e, b in cases[False]:
+        okb = False
+        ba = b.as_atom()
+        if ba and ba[0] == "call" and ba[1].key() == f"_BATCH[{method}]":
+            a = ba[2]
+            okb = len(a) == 3 and a[0].key() == seed.key() and (a[1] - a[0] + 1) == d1 and a[2].key() == d2.key()
+        elif ba and ba[0] == "ite":
+            okb = False        # the result for a given d2 depends on something else than (seed, d1, d2): reported with the condition
+        elif not (ba and ba[0] == "call"):
+            raise AnalysisError(f"{FE}:quasirandom: unrecognised construction of the batch result: {str(b)[:120]}")
+        extra = [c for c, pol in e.guards if c.key() != ck]
+        chk.ob("R20.5", FE, "quasirandom", "a sequence: the batch gets the inclusive window [seed, seed + d1 - 1] (d1 points) and the dimension, and its "
+               "array is returned as it is (one row per seed, also for d1 == 1)", okb,
+               node=e.node, fingerprint="batch-window" + (":" + extra[0].key()[:30] if extra else ""), found=str(b)[:200])
 
 
 def r20_6(chk, sb):
